@@ -33,6 +33,7 @@ pub mod system;
 pub mod timing;
 
 pub mod checks;
+pub mod cpustep;
 pub mod refm;
 pub mod util;
 pub mod world;
